@@ -299,7 +299,12 @@ def plan(tier, rng, sl, nslices, stats):
     cfg = TIERS[tier]
     for i in range(cfg["random"]):
         k = i % 6
-        if k == 0:
+        if k == 0 and i % 60 == 0:
+            c = gfa.large_case(rng, kinds=("enfa",))
+            c["graph_names"] = False
+            c["isolated"] = False
+            yield {"kind": "fa", "fa": c}
+        elif k == 0:
             c = gfa.random_case(rng, max_states=4, max_syms=3, kinds=("enfa",), vcs=["int", "str", "binary"])
             c["graph_names"] = rng.random() < 0.3
             c["isolated"] = rng.random() < 0.25
